@@ -194,4 +194,4 @@ def run(tier, seed, t0):
                                "curve points are assumed on the curve where the group law needs it",
                                "fp_div2 and fn_inv are unreachable from public functions and are not claimed"],
                   explanation="MIR of gm-sm2 regenerated from /repo; every obligation is one or more unsat queries (z3) over the executed real code.",
-                  rule="one obligation per function and layer; all distinct")
+                  rule="one obligation per function and layer; all distinct", replayer=__import__("c11_l4").replayer)
